@@ -24,7 +24,7 @@ from . import common
 
 PROPERTY = "C07"
 LEVEL = "exploration"
-RUNS = {"quick": 1200, "thorough": 40000}
+RUNS = {"quick": 3000, "thorough": 60000}
 BATCH = 20
 RULE = ("seeded directories (3-14 entries from a pool built around every alternative of the shipped ignorepatt, "
         "dot-files, 0-3 link files, .cap overrides) x directory handler x protocol, each listed under K "
